@@ -147,6 +147,7 @@ def monitor(ex, final):
 
 
 PROFILE = {
+    'client_flavours': ['plain', 'plain', 'plain', 'plain', 'jsonp', 'gzip', 'jsonp+gzip'],
     'world_kw_st': st.fixed_dictionaries({
         'handler_delay': st.sampled_from([{}, {}, {}, {'disconnect': 0.25}, {'message': 0.25},
                                           {'disconnect': 0.25, 'message': 0.25}])}),
@@ -156,7 +157,8 @@ PROFILE = {
     'max_sessions': 3,
     'packet_kinds': [('msg', 3), ('pong', 1), ('close', 1), ('upgrade', 1), ('bad', 3), ('noise', 1)],
     'post_modes': [('pkts', 5), ('raw', 3), ('many', 1)],
-    'config': {'transports': st.sampled_from([None, None, None, ['polling'], ['websocket']]),
+    'config': {'compression_threshold': st.sampled_from([0, 1024]),
+               'transports': st.sampled_from([None, None, None, ['polling'], ['websocket']]),
                'ping_interval': st.sampled_from([1, 5, 25]),
                'ping_timeout': st.sampled_from([1, 5, 20]),
                'max_http_buffer_size': st.sampled_from([1000000, 1000000, 50]),
